@@ -155,3 +155,17 @@ def contexts(F, G, WP):
                     cur |= add
                     changed = True
     return ctx, site_ctx
+
+
+def live_scope(F, G):
+    """bodies reachable from what users run: the ragc CLI, the public streaming-compressor,
+    decompressor and archive APIs and the worker thread (legacy / unused modules excluded)"""
+    roots = ["ragc::main", CORE + "worker_thread"]
+    for k, f in F.funcs.items():
+        if f.kind != "assocfn" or not f.is_pub():
+            continue
+        if k.startswith(SQC) or k.startswith("ragc_core::decompressor::Decompressor::") or \
+                k.startswith("ragc_common::archive::Archive::"):
+            roots.append(k)
+    roots = [r for r in roots if r in F.funcs]
+    return {k for k in G.reachable(roots) if "streaming_compressor_queue_legacy" not in k}
